@@ -6,7 +6,7 @@ explicit `raise`; `yield`/`await` in generator-style coroutines; statements the
 caller's `may_raise` policy names; `assert` when enabled.
 """
 import ast
-from .match import src, dotted, walk_local, assigned_targets, mentions, FUNC_TYPES
+from .match import src, dotted, walk_local, assigned_targets, mentions, FUNC_TYPES, eval_small, UNKNOWN, const, NOCONST
 from .index import Undecided
 
 MUTATORS = frozenset(('append', 'pop', 'remove', 'clear', 'extend', 'insert', 'add', 'discard',
@@ -574,12 +574,31 @@ class CFG(object):
                         break
             return val if new is None else new
 
+        def track_consts(val, node):
+            """locals assigned a constant are remembered under key '=name' so that a
+            later test of the flag is decided instead of forked."""
+            a = node.ast
+            if node.kind != 'stmt' or not isinstance(a, ast.Assign):
+                return val
+            new = None
+            for t in a.targets:
+                if isinstance(t, ast.Name):
+                    c = const(a.value)
+                    if c is not NOCONST and isinstance(c, (bool, int, str, bytes, type(None))):
+                        if new is None:
+                            new = dict(val)
+                        new['=' + t.id] = (ast.Name(id=t.id, ctx=ast.Load()), c)
+            return val if new is None else new
+
+        def const_env(val):
+            return dict((k[1:], v[1]) for k, v in val.items() if k.startswith('='))
+
         def rec(node, trail, val, loops):
             if budget[0] <= 0:
                 raise Undecided('path budget exceeded in %s' % self.unit.qual)
             if node.kind == 'exit' or (stop is not None and stop(node) and trail):
                 trail.append((node, None))
-                out.append((list(trail), dict((k, v[1]) for k, v in val.items())))
+                out.append((list(trail), dict((k, v[1]) for k, v in val.items() if not k.startswith('='))))
                 trail.pop()
                 budget[0] -= 1
                 return
@@ -588,8 +607,14 @@ class CFG(object):
                 decided = None
                 if prune and key in val:
                     decided = val[key][1]
-                elif eval_hook is not None:
-                    decided = eval_hook(node, dict((k, v[1]) for k, v in val.items()), trail)
+                if decided is None and prune:
+                    ce = const_env(val)
+                    if ce:
+                        r = eval_small(node.ast, ce)
+                        if r is not UNKNOWN:
+                            decided = bool(r)
+                if decided is None and eval_hook is not None:
+                    decided = eval_hook(node, dict((k, v[1]) for k, v in val.items() if not k.startswith('=')), trail)
                 for lab, s in node.succ:
                     if lab == 'exc':
                         if not follow_exc:
@@ -610,6 +635,8 @@ class CFG(object):
                     trail.pop()
                 return
             val2 = invalidate(val, node) if prune else val
+            if prune:
+                val2 = track_consts(val2, node)
             for lab, s in node.succ:
                 if lab == 'exc' and not follow_exc:
                     continue
